@@ -79,6 +79,7 @@ def reviewedUntypedRangeSites : List Site := [
   ("dotenv/godotenv.go", "loadFile", "range", "rawEnv"),
   ("format/volume.go", "populateFieldFromBuffer", "range", "strings.Split(strBuffer, \",\")"),
   ("loader/reset.go", "ResetProcessor.resolveReset", "range", "node.Content"),
+  ("loader/reset.go", "checkAcyclic", "range", "node.Content"),   -- C01 round 2: the tree check before Decode; a yaml.Node's content is a slice
   ("schema/schema.go", "humanReadableType", "range", "allTypes"),
   ("template/template.go", "matchGroups", "range", "pattern.SubexpNames()[1:]"),
   ("template/variables.go", "extractVariable", "range", "matches"),
